@@ -123,6 +123,31 @@ where
     let findings = load_findings();
     let mut known_sample_written: HashSet<String> = HashSet::new();
     let logp = format!("{}/w{}.last", outdir, widx);
+    // Watchdog: the sequential engines call the crate on the worker's own thread, so a call that
+    // never returns (a spinning compare-exchange loop in a changed tree) would hang the check. A
+    // case that makes no progress for 30 s ends the worker with "hung" (inconclusive, exit 2 -
+    // never a violation); its last logged case stays in place for inspection.
+    let progress = std::sync::Arc::new(std::sync::atomic::AtomicU64::new(0));
+    {
+        let progress = progress.clone();
+        let res_path = format!("{}/w{}.json", outdir, widx);
+        let part = part.to_string();
+        std::thread::spawn(move || {
+            let mut last = (0u64, Instant::now());
+            loop {
+                std::thread::sleep(std::time::Duration::from_millis(500));
+                let p = progress.load(std::sync::atomic::Ordering::Relaxed);
+                if p != last.0 {
+                    last = (p, Instant::now());
+                } else if last.1.elapsed().as_secs() >= 30 {
+                    eprintln!("watchdog: a case of {} did not finish within 30 s", part);
+                    let res = WorkerResult { hung: true, evaluations: p as usize, ..Default::default() };
+                    let _ = std::fs::write(&res_path, serde_json::to_string(&res).unwrap());
+                    std::process::exit(2);
+                }
+            }
+        });
+    }
     let run = |c: &C| -> Result<(bool, Value), String> {
         match std::panic::catch_unwind(std::panic::AssertUnwindSafe(|| test(c))) {
             Ok(r) => r,
@@ -145,6 +170,7 @@ where
             let _ = f.write_all(serde_json::to_string(&rp).unwrap().as_bytes());
         }
         res.evaluations += 1;
+        progress.fetch_add(1, std::sync::atomic::Ordering::Relaxed);
         match run(&case) {
             Ok((nt, counters)) => {
                 add_counters(&mut res.counters, &counters);
@@ -181,6 +207,7 @@ where
                             break;
                         }
                         let c = tree.current();
+                        progress.fetch_add(1, std::sync::atomic::Ordering::Relaxed);
                         match run(&c) {
                             Err(m) => {
                                 best = (c, m);
@@ -249,9 +276,16 @@ fn fails_same(case: &Case, oracle: &str, runs: &mut usize) -> Option<Outcome> {
         std::process::exit(2);
     }
     match &o.fail {
-        Some(f) if f.oracle == oracle => Some(o),
+        // shrinking must not slide from an unknown failure into an open known finding that happens
+        // to fail the same oracle: the replay would then be reported as the known finding
+        Some(f) if f.oracle == oracle && match_open(&load_findings_cached(), f).is_none() => Some(o),
         _ => None,
     }
+}
+
+fn load_findings_cached() -> Vec<Finding> {
+    static CACHE: std::sync::OnceLock<Vec<Finding>> = std::sync::OnceLock::new();
+    CACHE.get_or_init(load_findings).clone()
 }
 
 /// delta-debugging on the materialised case: drop operations/threads, simplify flags, shorten and
@@ -715,8 +749,28 @@ fn replay_dir(id: &str) -> Vec<PathBuf> {
 /// (exit code, stdout).
 pub fn run_replay_child(path: &Path) -> (i32, String) {
     let exe = std::env::current_exe().unwrap();
-    let o = std::process::Command::new(exe).arg("replay").arg(path).env("VCHECK_QUIET", "1").output().unwrap();
-    (o.status.code().unwrap_or(134), String::from_utf8_lossy(&o.stdout).to_string())
+    let mut ch = std::process::Command::new(exe).arg("replay").arg(path).env("VCHECK_QUIET", "1").stdout(std::process::Stdio::piped()).stderr(std::process::Stdio::null()).spawn().unwrap();
+    // a replay that does not come back within 120 s is inconclusive (exit 2), never a violation
+    let t0 = Instant::now();
+    loop {
+        match ch.try_wait() {
+            Ok(Some(st)) => {
+                let mut out = String::new();
+                if let Some(mut so) = ch.stdout.take() {
+                    use std::io::Read;
+                    let _ = so.read_to_string(&mut out);
+                }
+                return (st.code().unwrap_or(134), out);
+            }
+            Ok(None) if t0.elapsed().as_secs() >= 120 => {
+                let _ = ch.kill();
+                let _ = ch.wait();
+                return (2, format!("replay {} did not finish within 120 s\n", path.display()));
+            }
+            Ok(None) => std::thread::sleep(std::time::Duration::from_millis(50)),
+            Err(_) => return (2, String::new()),
+        }
+    }
 }
 
 /// one generated tier of a check: an E1 profile or a sequential (E2) engine
@@ -964,6 +1018,7 @@ pub fn fuzz_campaign(target: &str, runs_per_job: usize, jobs: usize, seed: u64) 
 /// E5: the sequential generators under Miri (sanitizer back-end). Which part serves a property.
 pub fn miri_part_of(id: &str) -> Option<(&'static str, usize)> {
     match id {
+        "C12" => Some(("C12mix", 12)),
         "C14" => Some(("C14seq", 5)),
         "C15" => Some(("C15kinds", 30)),
         "C16" => Some(("C16seq", 15)),
@@ -989,7 +1044,7 @@ pub fn miri_campaign(id: &str, part: &str, per_job: usize, jobs: usize, seed: u6
     let hdir = format!("{}/harness", verif_dir());
     let mk = |n: usize, sd: u64| {
         let mut c = std::process::Command::new("cargo");
-        c.args(["+nightly", "miri", "run", "--release", "--bin", "vmiri", "--", part, &n.to_string(), &sd.to_string()]).env("MIRIFLAGS", "-Zmiri-permissive-provenance").env("CARGO_NET_OFFLINE", "true").current_dir(&hdir);
+        c.args(["+nightly", "miri", "run", "--release", "--bin", "vmiri", "--", part, &n.to_string(), &sd.to_string()]).env("MIRIFLAGS", if part.ends_with("mix") { "-Zmiri-permissive-provenance -Zmiri-ignore-leaks" } else { "-Zmiri-permissive-provenance" }).env("CARGO_NET_OFFLINE", "true").current_dir(&hdir);
         c
     };
     // build once (0 cases)
@@ -1107,7 +1162,7 @@ pub fn parent(id: &str, tier: &str) -> i32 {
     // E4: coverage-guided campaign (thorough tier only), oracles inside the target
     if thorough && violations == 0 {
         if let Some(target) = fuzz_target_of(id) {
-            let (runs, jobs) = if target == "sched" { (40_000, 16) } else { (400_000, 8) };
+            let (runs, jobs) = if target == "sched" { (40_000, 16) } else if target == "kinds" { (200_000, 8) } else { (400_000, 8) };
             let runs = std::env::var("VCHECK_FUZZ_RUNS").ok().and_then(|s| s.parse().ok()).unwrap_or(runs);
             let f = fuzz_campaign(target, runs, jobs, seed);
             if f.available {
